@@ -89,4 +89,4 @@ func WriteManifest(propsFile string) error {
 }
 
 // SourceCommits lists fix: commits made to /repo (hooks: none).
-var SourceCommits = []string{}
+var SourceCommits = []string{"7e360cc", "2d971c6", "fdf6baa", "5146f3f", "7079460"}
